@@ -64,7 +64,8 @@ int main(int argc, char** argv)
         int len = R.chance(1, 4) ? 4096 : (int) (1 + R.below(16));
         if (char const* fn = std::getenv("VERIF_MPI_N")) n = std::atoi(fn);
         if (char const* fl = std::getenv("VERIF_MPI_LEN")) len = std::atoi(fl);
-        bool use_wait = R.chance(1, 2);
+        bool use_wait = R.chance(3, 4);
+        int slow = R.chance(1, 2) ? 100 + (int) R.below(1500) : 0;
         ev("init").i("mode", mode).i("n", n).i("len", len).done();
         mpi::detail::set_completion_mode((std::size_t) mode);
         std::vector<std::unique_ptr<slot>> slots;
@@ -77,36 +78,38 @@ int main(int argc, char** argv)
         std::atomic<int> nsig{0};
         std::atomic<int> posted{0};
         {
-            // polling is enabled for the duration of the history (balanced enable/disable)
-            std::atomic<int> stop{0};
-            // polling is enabled from a pika task for the duration of the history
-            std::thread ctl([&] {
-                tt::sync_wait(ex::schedule(ex::thread_pool_scheduler{}) | ex::then([&] {
-                    mpi::enable_polling ep;
-                    // every request is posted by its own task: in the yield_while / suspend_resume
-                    // modes the posting task itself waits for the completion
-                    for (int k = 0; k < n; ++k)
-                    {
-                        slot* s = slots[k].get();
-                        ex::execute(ex::thread_pool_scheduler{}, [s, k, len, comm, &nsig, &posted] {
-                            ev("post").i("k", k + 1).done();
-                            ++posted;
-                            auto snd = mpi::transform_mpi(
-                                           ex::just(s->buf.data(), len, MPI_INT, 0, 1000 + k, comm), MPI_Irecv) |
-                                ex::then([s, k, len, &nsig](auto&&...) {
-                                    bool ok = s->sent.load() == 1;
-                                    for (int j = 0; j < len && ok; ++j) ok = s->buf[j] == k * 7 + j;
-                                    ev("signal").i("k", k + 1).i("ok", ok).done();
-                                    ++s->signalled;
-                                    ++nsig;
-                                });
-                            ex::start_detached(std::move(snd));
-                        });
-                    }
-                    // keep polling enabled until every request was signalled (or the driver gives up)
-                    while (nsig.load() < n && !stop.load()) pika::this_thread::yield();
-                }));
-            });
+            // polling is enabled from a pika task for the duration of the history; no task of the
+            // harness stays alive meanwhile, so that pika::wait() depends on the MPI requests alone
+            std::unique_ptr<mpi::enable_polling> ep;
+            tt::sync_wait(ex::schedule(ex::thread_pool_scheduler{}) | ex::then([&] {
+                ep = std::make_unique<mpi::enable_polling>();
+                // every request is posted by its own task: in the yield_while / suspend_resume
+                // modes the posting task itself waits for the completion
+                for (int k = 0; k < n; ++k)
+                {
+                    slot* s = slots[k].get();
+                    ex::execute(ex::thread_pool_scheduler{}, [s, k, len, comm, &nsig, &posted, slow] {
+                        ev("post").i("k", k + 1).done();
+                        ++posted;
+                        auto snd = mpi::transform_mpi(
+                                       ex::just(s->buf.data(), len, MPI_INT, 0, 1000 + k, comm), MPI_Irecv) |
+                            ex::then([s, k, len, &nsig, slow](auto&&...) {
+                                // a continuation that takes its time: pika::wait() must still wait for it
+                                if (slow)
+                                {
+                                    auto t = clk::now() + std::chrono::microseconds(50 + (k * 37) % slow);
+                                    while (clk::now() < t) {}
+                                }
+                                bool ok = s->sent.load() == 1;
+                                for (int j = 0; j < len && ok; ++j) ok = s->buf[j] == k * 7 + j;
+                                ev("signal").i("k", k + 1).i("ok", ok).done();
+                                ++s->signalled;
+                                ++nsig;
+                            });
+                        ex::start_detached(std::move(snd));
+                    });
+                }
+            }));
             auto t0 = clk::now();
             while (posted.load() < n && clk::now() - t0 < std::chrono::seconds(20))
                 std::this_thread::sleep_for(std::chrono::microseconds(200));
@@ -151,9 +154,8 @@ int main(int argc, char** argv)
                 vlog::hang_pause();
                 _exit(0);
             }
-            stop = 1;
-            ctl.join();
             if (waiter.joinable()) waiter.join();
+            tt::sync_wait(ex::schedule(ex::thread_pool_scheduler{}) | ex::then([&] { ep.reset(); }));
             // a late second signal would show up here
             std::this_thread::sleep_for(std::chrono::microseconds(300));
         }
